@@ -15,6 +15,8 @@ def regenerate(verbose=False):
             mod = importlib.import_module("translate." + name)
             if hasattr(mod, "generate"):
                 res[name] = mod.generate()
+            elif hasattr(mod, "regenerate"):
+                res[name] = mod.regenerate()
         except Exception as e:  # a translator that cannot parse the tree: the checks that need it report it
             res[name] = "FAILED: %r" % (e,)
             if verbose:
